@@ -89,6 +89,18 @@ def stream_cases(ctx, n_seq, per):
             z = _gz.compress(inner, mtime=0)
             tail = bytes([0x20, 0, 0, 0, 1, 0x41])
             raw.append({"mode": "raw", "wire": (bytes([ty]) + len(z).to_bytes(4, "big") + z + tail).hex(), "cuts": rng.choice([[], [1] * 80, [7] * 20])})
+    # frame sequences that carry buffer state from one frame to the next: a VALID compressed command of varying size followed
+    # by frames whose bodies span the buffer pool's size classes (a buffer mis-filed by the first frame is handed to the second)
+    for pad in (0, 40, 300, 900, 2500):
+        inner = b'{"command_type":13,"command_id":"c","command_body":"{}"' + b" " * pad + b"}"
+        z = _gz.compress(inner, mtime=0)
+        first = bytes([rng.choice([0x50, 0x51])]) + len(z).to_bytes(4, "big") + z
+        for n2 in (1, 600, 3000, 4000, 4200, 9000, 20000):
+            body2 = b'{"client_id":1,"token":"' + b"a" * n2 + b'"}'
+            second = bytes([rng.choice([0x01, 0x20, 0x41])]) + len(body2).to_bytes(4, "big") + body2
+            third = bytes([0x10]) + len(inner).to_bytes(4, "big") + inner
+            raw.append({"mode": "raw", "wire": (first + second + third + first + second).hex(), "cuts": rng.choice([[], [1000] * 80, [7] * 20]),
+                        "big": n2 > 3900})   # (bodies above 4096 are not echoed by the harness: Go-side predicate only, not pushed through the model)
     for c in raw:
         c["mode"] = "stream"
     return raw
@@ -156,7 +168,7 @@ def run(ctx, only_cases=None):
     # model vs implementation on the stream cases
     mism = []
     terms = []
-    model_idx = [i for i, o in enumerate(s_out) if o["obs"]]   # a run that panicked / timed out has no observation to diff
+    model_idx = [i for i, o in enumerate(s_out) if o["obs"] and not streams[i].get("big")]   # a run that panicked / timed out has no observation to diff
     for i in model_idx:
         c1 = {"mode": "raw", "cuts": streams[i]["cuts"]}
         terms.append(c01.case_value(c1, s_out[i]))
